@@ -126,3 +126,31 @@ pub fn d4_wrong_shape_accepted() -> Result<(), Fail> {
     }
     Ok(())
 }
+
+/// D5: libm `pow(h, 2)` is not exactly homogeneous under power-of-two scaling of the axis, so the
+/// not-a-knot / SecondDeriv rows changed a last bit when the axis unit changed (C15, exact clause)
+pub fn d5_pow_not_scale_invariant() -> Result<(), Fail> {
+    let xb: [u64; 12] = [0x0, 0x3fd62cdcb4d5daab, 0x3fe1286d24946a42, 0x3ff4dce11ebc3793, 0x400c96e98c84a844, 0x40114cdde3f6ab81, 0x4012d1e83e32d191, 0x401864f82d6d6686,
+        0x401b1cd2bf69442d, 0x401c5b8ff4bb8a8a, 0x401f5d759b0ea55b, 0x4026000000000000];
+    let x: Vec<f64> = xb.iter().map(|&b| f64::from_bits(b)).collect();
+    // data Ix4 of shape (12, 2, 1, 1) as in the case found (whether rustc folds `pow(h, 2.0)` into a
+    // product depends on the instantiation: with Ix1 data it does, and the defect is invisible)
+    let mut y = vec![0.0; 24];
+    y[20] = 7.0;
+    y[21] = 7.0;
+    let q = f64::from_bits(0x4026000000000001);
+    let f = 2048.0;
+    let eval = |xs: &[f64], q: f64| -> Result<f64, Fail> {
+        match build1::<f64>(Some(arr_1(xs)), arr_d(&[12, 2, 1, 1], &y), DDim::S4, &Strat1::Spline { extrapolate: true, bc: Bc::NotAKnot }) {
+            Some(Ok(i)) => i.t_interp(q).map(|a| a.v[0]).map_err(|e| Fail::new("query-rejected", e)),
+            _ => Err(Fail::new("build-failed", "d5: build failed")),
+        }
+    };
+    let a = eval(&x, q)?;
+    let xs: Vec<f64> = x.iter().map(|v| v * f).collect();
+    let b = eval(&xs, q * f)?;
+    if a.to_bits() != b.to_bits() {
+        return Err(Fail::new("exact-relation/rel:axis-pow2/Spline/NotAKnot", format!("D5 regression: axis and query x 2^11 changes the not-a-knot spline value from {a:e} to {b:e} (12 knots on [0,11], y = 7 at knot 10, q one ulp above the range)")));
+    }
+    Ok(())
+}
